@@ -68,6 +68,13 @@ Connected(st) ==
       /\ st.idx.present => (st.idx.ok /\ \A i \in 1..Len(st.idx.ents) : IsBlob(st, st.idx.ents[i].id))
       /\ BadObjs(st) = {}
       /\ \A id \in DOMAIN st.objs : Obj(st, id).k # "bad"
+(* the same without the store-wide demand: only what refs and staging area reach must be intact (C15) *)
+ConnectedReach(st) ==
+    st.repo =>
+      /\ HeadOk(st)
+      /\ Len(st.refsodd) = 0
+      /\ \A c \in ReachCommits(st, TipIds(st), {}) : CommitOk(st, c)
+      /\ st.idx.present => (st.idx.ok /\ \A i \in 1..Len(st.idx.ents) : IsBlob(st, st.idx.ents[i].id))
 Immutable(s, t) == \A id \in DOMAIN s.st.objs : id \in DOMAIN t.st.objs /\ t.st.objs[id] = s.st.objs[id]
 
 ----------------------------------------------------------------------------
